@@ -93,3 +93,26 @@ Definition is_mirror (k : alu) (l : list expr) : bool :=
   | Some (a, b) => operand_ok a && operand_ok b && (size a =? size b) && ((size a =? 8) || (size a =? 16) || (size a =? 32)) && list_expr_eqb l (mirror k a b)
   | None => false
   end.
+
+(** * inc / dec / neg: one operand; the other is a constant of its width *)
+Inductive una := Inc | Dec | Neg.
+Definition una_of (mn : string) : option una :=
+  if (mn =? "inc")%string then Some Inc else if (mn =? "dec")%string then Some Dec else if (mn =? "neg")%string then Some Neg else None.
+Definition una_const (k : una) (a : expr) : expr :=
+  match k with Inc => int_from a 1 | Dec => int_from a (2 ^ size a - 1) | Neg => int_from a 0 end.
+Definition mirror_u (k : una) (a : expr) : list expr :=
+  let b := una_const k a in
+  match k with
+  | Inc | Dec => let c := alu_val Add a b in upd_znp c ++ [upd_af c; EAff (flag "of") (add_of_src a b c); mk_aff a c]
+  | Neg => let c := alu_val Sub b a in upd_znp c ++ [EAff (flag "cf") (sub_cf_src b a c); EAff (flag "of") (sub_of_src b a c); upd_af c; mk_aff a c]
+  end.
+Definition operand_of_u (k : una) (l : list expr) : option expr :=
+  match l with
+  | EAff _ (ECond (EOp _ [x; y]) _ _) :: _ => match k with Neg => Some y | _ => Some x end
+  | _ => None
+  end.
+Definition is_mirror_u (k : una) (l : list expr) : bool :=
+  match operand_of_u k l with
+  | Some a => operand_ok a && ((size a =? 8) || (size a =? 16) || (size a =? 32)) && list_expr_eqb l (mirror_u k a)
+  | None => false
+  end.
